@@ -17,6 +17,7 @@
 package c10
 
 import (
+	"context"
 	"fmt"
 	"io"
 	"log"
@@ -57,6 +58,9 @@ type Case struct {
 	// reads the list of invocations - a message that was refused must stay refused, not be
 	// handed to the handler a little later.
 	SettleMs int `json:"settle_ms,omitempty"`
+	// WrapCtx: every application handler that runs stores a value of its own in the connection's
+	// context (SetContext with a context derived from Context()), as the API invites it to.
+	WrapCtx bool `json:"wrap_ctx,omitempty"`
 }
 
 // Server side: CER = acceptable; CER-app4 = acceptable, but the header carries
@@ -233,16 +237,23 @@ type invocation struct {
 }
 
 type application struct {
-	mu   sync.Mutex
-	invs []invocation
+	mu      sync.Mutex
+	invs    []invocation
+	wrapCtx bool
 }
+
+type appCtxKey struct{}
 
 func (a *application) handler(lbl string) diam.HandlerFunc {
 	return func(c diam.Conn, m *diam.Message) {
 		_, ok := smpeer.FromContext(c.Context())
 		a.mu.Lock()
 		a.invs = append(a.invs, invocation{lbl, m.Header.HopByHopID, ok})
+		n := len(a.invs)
 		a.mu.Unlock()
+		if a.wrapCtx {
+			c.SetContext(context.WithValue(c.Context(), appCtxKey{}, n))
+		}
 	}
 }
 
@@ -286,7 +297,7 @@ type env struct {
 }
 
 func newEnv(c Case) *env {
-	e := &env{app: &application{}, tc: newTConn(), stop: make(chan struct{})}
+	e := &env{app: &application{wrapCtx: c.WrapCtx}, tc: newTConn(), stop: make(chan struct{})}
 	e.machine = sm.New(&sm.Settings{
 		OriginHost:  datatype.DiameterIdentity(ownHost),
 		OriginRealm: datatype.DiameterIdentity(ownRealm),
@@ -645,6 +656,7 @@ func variants(role string, hist []string, idx *uint64, yield func(Case) bool) bo
 			if fr == "every" {
 				c.Frag = "every:" + strconv.Itoa(everyN[h%4])
 			}
+			c.WrapCtx = (h>>12)%3 == 0
 			if role == "server" {
 				c.Listener = (h>>8)%2 == 0
 			} else {
@@ -734,6 +746,7 @@ func genServer(t *rapid.T) Case {
 		c.Hist = append(c.Hist, rapid.SampledFrom(serverWeighted).Draw(t, "sym"))
 	}
 	genFrag(t, &c)
+	c.WrapCtx = rapid.IntRange(0, 2).Draw(t, "wrap-ctx") == 0
 	return c
 }
 
@@ -747,6 +760,7 @@ func genClient(t *rapid.T) Case {
 	at := rapid.IntRange(0, n).Draw(t, "cea-at")
 	c.Hist = append(c.Hist[:at], append([]string{cea}, c.Hist[at:]...)...)
 	genFrag(t, &c)
+	c.WrapCtx = rapid.IntRange(0, 2).Draw(t, "wrap-ctx") == 0
 	return c
 }
 
@@ -760,6 +774,9 @@ func classify(c Case) (bool, []string) {
 	}
 	if c.Listener {
 		cl = append(cl, "via-listener")
+	}
+	if c.WrapCtx {
+		cl = append(cl, "handlers-store-values-in-the-connection-context")
 	}
 	if len(c.Hist) > 4 {
 		cl = append(cl, "len>4")
